@@ -434,6 +434,20 @@ impl SyntaxTemplate {
         })
     }
 
+    fn mentions_variable(&self, substitutions: &HashMap<String, (Datum, Vec<Datum>)>) -> bool {
+        match &self.data {
+            SyntaxTemplateBody::Pair(list) => list
+                .clone()
+                .into_pair_iter()
+                .any(|item| item.get_inside().0.mentions_variable(substitutions)),
+            SyntaxTemplateBody::Vector(vec) => {
+                vec.iter().any(|element| element.0.mentions_variable(substitutions))
+            }
+            SyntaxTemplateBody::Identifier(var) => substitutions.contains_key(var),
+            _ => false,
+        }
+    }
+
     fn substitute_template_element(
         template_element: &SyntaxTemplateElement,
         substitutions: &HashMap<String, (Datum, Vec<Datum>)>,
@@ -441,6 +455,13 @@ impl SyntaxTemplate {
     ) -> Result<Vec<Datum>, SchemeError> {
         match template_element {
             SyntaxTemplateElement(sub_template, true) => {
+                // without a pattern variable nothing would ever end the repetition below
+                if !sub_template.mentions_variable(substitutions) {
+                    return located_error!(
+                        SyntaxError::UnexpectedTemplate(sub_template.clone()),
+                        sub_template.location
+                    );
+                }
                 let mut result = sub_template.substitude(substitutions, location)?;
                 let mut suffix_item_index = 0;
                 while let Some(item) = Self::substitude_ellipsis_item(
